@@ -75,3 +75,11 @@ func (c *Ctx) installAcceptAllAuth(api reflect.Value) {
 }
 
 var _ = strings.TrimSpace
+
+func oasKind(s map[string]any) string {
+	k := oas.Kind(s)
+	if k == "date" {
+		return "string"
+	}
+	return k
+}
